@@ -443,3 +443,5 @@ SELFTEST = [
     {"name": "negated-le", "kind": "benign", "edits": [("dropshot/src/extractor/body.rs", "if bytes_read + len > self.cap {", "if !(bytes_read + len <= self.cap) {")], "why": "same predicate"},
     {"name": "renamed-locals", "kind": "benign", "edits": [("dropshot/src/extractor/body.rs", "                let len = buf.len();\n\n                if bytes_read + len > self.cap {", "                let n = buf.len();\n                let len = n;\n\n                if bytes_read + len > self.cap {")], "why": "extra copy of len"},
 ]
+
+LEVEL_TEXT += ' Also (R6): a refusal can only be caused by bytes actually counted, by a sound lower bound of the remaining length, or by a transport error.'
